@@ -160,6 +160,17 @@ func c18Sequential(t *rapid.T) {
 				return
 			}
 			stop = check(n == k && err == nil, "write", "Write(%d) = %d, %v", k, n, err)
+			if !stop && (k == 0 || rapid.IntRange(0, 15).Draw(t, "probe") == 7) {
+				// the backlog is usable again once Write has returned: the next call must not find it locked
+				done := make(chan struct{})
+				go func() { bl.DataRange(); close(done) }()
+				select {
+				case <-done:
+				case <-time.After(3 * time.Second):
+					stop = check(false, "blocked-after-write", "DataRange() has not returned 3 s after Write(%d) returned %d, %v", k, n, err)
+					return
+				}
+			}
 			if (wpos%bk.cap)+uint64(n) > bk.cap {
 				wrapsSeen++
 			}
